@@ -45,6 +45,9 @@ def signal(rng, form):
     return np.array([rng.randint(-4, 9) for _ in range(int(np.prod(shape)))], dtype=float).reshape(shape)
 
 
+LABMAG = [-1]
+
+
 def events(darsia, rng, stacks, degrees, quick):
     ev = []
     forms = ["pixels", "2d", "3d"]
@@ -141,6 +144,13 @@ def events(darsia, rng, stacks, degrees, quick):
         labels = np.array([rng.choice(labs) for _ in range(shape[0] * shape[1])]).reshape(shape)
         for l_ in labs:
             labels.ravel()[rng.randrange(labels.size)] = l_
+        # (label ids by turns: small; composed / offset labelings with ids beyond 2**15 and 2**16; negative ids)
+        LABMAG[0] += 1
+        ldtype = np.uint8
+        if LABMAG[0] % 3 == 1:
+            labels, ldtype = labels * 20000 + 7, np.int32
+        elif LABMAG[0] % 3 == 2:
+            labels, ldtype = labels * 4100, np.uint16
         uniq = sorted(set(labels.ravel().tolist()))
         a = [rng.randint(-2, 3) for _ in uniq]
         b = [rng.randint(-3, 3) for _ in uniq]
@@ -153,7 +163,7 @@ def events(darsia, rng, stacks, degrees, quick):
         x = x.astype(sdt)
         e = {"tid": f"hetlinear:{i}", "op": "hetlinear", "labels": labels.ravel().tolist(), "uniq": uniq, "a": a, "b": b, "x": ints(x), "raised": 0, "res": [], "shape": list(shape), "sdtype": sdt}
         try:
-            hm = darsia.HeterogeneousLinearModel(labels.astype(np.uint8), scaling=[0.5 * v for v in a], offset=[0.5 * v for v in b])
+            hm = darsia.HeterogeneousLinearModel(labels.astype(ldtype), scaling=[0.5 * v for v in a], offset=[0.5 * v for v in b])
             if rng.random() < 0.5:
                 par = [rng.randint(-2, 3) for _ in uniq] + [rng.randint(-3, 3) for _ in uniq]
                 hm.update_model_parameters(0.5 * np.array(par, dtype=float))
